@@ -2,4 +2,5 @@ From Coq Require Import ZArith Extraction ExtrOcamlBasic.
 From CyVerif Require Import Lib.CInt Model.M_CMath Model.M_Overflow.
 Extraction "../ocaml/gen/m_overflow.ml" ex_keep wrap in_rangeb helper binop_node neg_node abs_node
   spurious binop_dispatch sdiv_helper udiv_helper lshift_ub_free smul_ub_free sadd_ub_free ssub_ub_free
-  annotate consolidate run_top ref_eval env_of_list div_node pyx_min pyx_max.
+  annotate consolidate run_top ref_eval env_of_list div_node pyx_min pyx_max
+  typedef_node dispatch_choice binop_dispatch_v lshift_td nogil_node.
